@@ -43,6 +43,7 @@ pub enum K {
     Rounds, // macro: several rounds of "everyone edits and commits, then everyone exchanges with everyone" (blocks with 3+ parents)
     Burst, // macro: a long run of successive small edits of the same objects (revision indices >= 10, >= 100)
     SameEdit,
+    Twins, // macro: the same content reached over two edits on one replica and one edit on another (equal-content leaves with different identifiers), resolved independently and differently on both, exchanged, edited again
     N,
 }
 
@@ -102,6 +103,7 @@ pub fn profile_for(prop: &str, variant: u64) -> Profile {
             w[K::Echo as usize] = 2;
             w[K::Trickle as usize] = 6;
             w[K::SameEdit as usize] = 2;
+            w[K::Twins as usize] = 1;
             w[K::Partition as usize] = 2;
             w[K::Heal as usize] = 2;
             w[K::ReloadUntil as usize] = 2;
@@ -149,6 +151,7 @@ pub fn profile_for(prop: &str, variant: u64) -> Profile {
         "C05" | "C19" => {
             p.name = if prop == "C05" { "winner-rule" } else { "identifiers" };
             w[K::Burst as usize] = 2;
+            w[K::Twins as usize] = 2;
             if prop == "C19" {
                 w[K::SameEdit as usize] = 8;
             }
@@ -171,11 +174,13 @@ pub fn profile_for(prop: &str, variant: u64) -> Profile {
             w[K::Diverge as usize] = 30;
             w[K::Resolve as usize] = 14;
             w[K::Exchange as usize] = 16;
+            w[K::Twins as usize] = 5;
             p.converge_end = 80;
         }
         "C08" => {
             p.name = "returns";
             w[K::Read as usize] = 6;
+            w[K::Twins as usize] = 2;
             w[K::TravelRedo as usize] = 3;
             w[K::StageSave as usize] = 2;
             w[K::StageRestore as usize] = 3;
@@ -828,6 +833,48 @@ impl Gen {
                     v.push(Op::ObjOp { r, kind: 0, id_sel: self.rng.next() as u32, fields: json!({"v": "after"}) });
                     v.push(Op::Commit { r, info: None });
                     v.push(Op::Reload { r });
+                    v
+                }
+            }
+            x if x == K::Twins as usize => {
+                if n < 2 || w.replicas[r].time_travel || w.replicas[other].time_travel {
+                    vec![Op::Reload { r }]
+                } else {
+                    let mut v = vec![];
+                    for q in [r, other] {
+                        if self.staging(w, q) {
+                            v.push(Op::Commit { r: q, info: None });
+                        }
+                    }
+                    v.extend([Op::Meld { r, from: other }, Op::Refresh { r }, Op::Meld { r: other, from: r }, Op::Refresh { r: other }]);
+                    let base = self.next_doc(w, r);
+                    let stamp = |doc: &Value, i: u64| -> Value {
+                        let mut d = doc.clone();
+                        if let Some(o) = d.as_object_mut() {
+                            o.insert("n".to_string(), json!(i));
+                            if let Some(Value::Array(a)) = o.get_mut(docgen::ARRAY_KEYS[0]) {
+                                if let Some(e) = a.first_mut().and_then(|e| e.as_object_mut()) {
+                                    if !e.contains_key("#") {
+                                        e.insert("k".to_string(), json!(i));
+                                    }
+                                }
+                            }
+                        }
+                        d
+                    };
+                    let i = self.rng.below(1000) as u64;
+                    let (d1, d2, d3) = (stamp(&base, i), stamp(&base, i + 1), stamp(&base, i + 2));
+                    v.extend([Op::Update { r, doc: d1, twice: false }, Op::Commit { r, info: None }, Op::Update { r, doc: d2.clone(), twice: false }, Op::Commit { r, info: None }]);
+                    v.extend([Op::Update { r: other, doc: d2, twice: false }, Op::Commit { r: other, info: None }]);
+                    v.extend([Op::Meld { r, from: other }, Op::Refresh { r }, Op::Meld { r: other, from: r }, Op::Refresh { r: other }]);
+                    let s = self.rng.next() as u32;
+                    let same_choice = self.rng.chance(1, 4);
+                    for j in 0..2u32 {
+                        v.push(Op::Resolve { r, obj_sel: s.wrapping_add(j), leaf_sel: 0 });
+                        v.push(Op::Resolve { r: other, obj_sel: s.wrapping_add(j), leaf_sel: if same_choice { 0 } else { 1 } });
+                    }
+                    v.extend([Op::Commit { r, info: None }, Op::Commit { r: other, info: None }, Op::Converge { commit: true }]);
+                    v.extend([Op::Update { r, doc: d3, twice: false }, Op::Commit { r, info: None }, Op::Meld { r: other, from: r }, Op::Refresh { r: other }]);
                     v
                 }
             }
